@@ -22,7 +22,9 @@
 #include <stdlib.h>
 
 #define SP_PRE 2
+#ifndef SP_VCAP
 #define SP_VCAP 32
+#endif
 #define SP_NF 6
 #ifndef SP_MAXSTEP
 #define SP_MAXSTEP 12
@@ -76,17 +78,31 @@ static int32_t sp_alloc_last, sp_touched, sp_freed;
 void sp_sfree(void *p) { }
 void *sp_nogrow_stub(void *v, int32_t increment, int32_t itemsize) { __CPROVER_assert(0, "harness: the preallocated instruction vectors suffice"); __CPROVER_assume(0); return v; }
 /* constants of this harness are immediate (nil, booleans, small integers): the constant table is never needed */
-int32_t sp_const_stub(JanetCompiler *c, Janet x) { __CPROVER_assert(0, "harness: only immediate constants are loaded"); __CPROVER_assume(0); return 0; }
+static int sp_const_ok; static Janet sp_const_seen; static int sp_const_calls;
+int32_t sp_const_stub(JanetCompiler *c, Janet x) {
+    if (sp_const_ok) { sp_const_calls++; sp_const_seen = x; return 0; }      /* units with one table constant: the ref cell of a top-level var */
+    __CPROVER_assert(0, "harness: only immediate constants are loaded"); __CPROVER_assume(0); return 0;
+}
+/* vectors created while compiling a binding (one SlotHeadPair, one SymPair): preallocated too */
+static struct { int32_t cap, cnt; SlotHeadPair data[4]; } sp_shpmem;
+static struct { int32_t cap, cnt; SymPair data[4]; } sp_symmem;
+void *sp_grow_stub(void *v, int32_t increment, int32_t itemsize) {
+    if (v == (void *)0 && itemsize == (int32_t) sizeof(SlotHeadPair)) { sp_shpmem.cap = 4; sp_shpmem.cnt = 0; return sp_shpmem.data; }
+    if (v == (void *)0 && itemsize == (int32_t) sizeof(SymPair)) { sp_symmem.cap = 4; sp_symmem.cnt = 0; return sp_symmem.data; }
+    __CPROVER_assert(0, "harness: the preallocated vectors suffice"); __CPROVER_assume(0); return v;
+}
+void sp_lintf_stub(JanetCompiler *c, JanetCompileLintLevel level, const char *format, ...) {}
 void sp_cerror_stub(JanetCompiler *c, const char *m) { sp_errors++; c->result.status = JANET_COMPILE_ERROR; }
 void sp_error_stub(JanetCompiler *c, const uint8_t *m) { sp_errors++; c->result.status = JANET_COMPILE_ERROR; }
 void sp_ra_init_stub(JanetcRegisterAllocator *ra) { ra->max = 0; }
 void sp_ra_clone_stub(JanetcRegisterAllocator *d, JanetcRegisterAllocator *s) { d->max = s->max; }
 void sp_ra_deinit_stub(JanetcRegisterAllocator *ra) {}
 /* a free register: never one that holds a live value (the registers of the sub-forms' results, SP_SLOT0..) */
-#define SP_SLOT0 20
+#define SP_SLOT0 16
 static int sp_is_form_slot(int32_t r) { return r >= SP_SLOT0 && r < SP_SLOT0 + SP_NF; }
-int32_t sp_ra_1_stub(JanetcRegisterAllocator *ra) { int32_t r = nd_i32(); __CPROVER_assume(r >= 0 && r < SP_NREG && !sp_is_form_slot(r)); sp_alloc_calls++; sp_alloc_last = r; return r; }
-int32_t sp_ra_temp_stub(JanetcRegisterAllocator *ra, JanetcRegisterTemp t) { int32_t r = nd_i32(); __CPROVER_assume(r >= 0xF0 && r <= 0xFF); return r; }
+int32_t sp_ra_1_stub(JanetcRegisterAllocator *ra) { int32_t r = nd_i32(); __CPROVER_assume(r >= 0 && r < SP_SLOT0); sp_alloc_calls++; sp_alloc_last = r; return r; }
+/* temporaries: one register per tag, distinct from everything else (the real allocator reserves 0xF0..0xFF; the interpreter models 32 registers) */
+int32_t sp_ra_temp_stub(JanetcRegisterAllocator *ra, JanetcRegisterTemp t) { return 24 + (int32_t) t; }
 void sp_ra_freetemp_stub(JanetcRegisterAllocator *ra, int32_t reg, JanetcRegisterTemp t) {}
 void sp_ra_touch_stub(JanetcRegisterAllocator *ra, int32_t reg) { sp_touch_calls++; sp_touched = reg; }
 void sp_ra_free_stub(JanetcRegisterAllocator *ra, int32_t reg) { sp_free_calls++; sp_freed = reg; }
@@ -131,6 +147,8 @@ static int8_t sp_reg[SP_NREG];
 static int sp_prog[SP_NF], sp_first[SP_NF], sp_clock;
 static int sp_halt, sp_retform, sp_undef_read, sp_changed, sp_disorder, sp_steps;
 static int8_t sp_retval; static int32_t sp_haltpc;
+#define SP_REFARR 4
+static int8_t sp_refcell, sp_put_ds, sp_put_key, sp_put_val; static int sp_refstores, sp_puts, sp_put_at;
 
 static int sp_kind_of_q(int8_t v) {
     if (v == SP_UNDEF) return K_OTHER;
@@ -151,6 +169,7 @@ static int sp_is_value_of(int8_t v, int f) {
 }
 static void sp_run_init(void) {
     for (int f = 0; f < SP_NF; f++) { sp_prog[f] = 0; sp_first[f] = -1; if (!sp_isconst[f] && sp_k[f] == 0) sp_reg[sp_slot[f]] = SP_VAL(f); }
+    sp_refcell = SP_UNDEF; sp_refstores = sp_puts = 0; sp_put_at = -1;
     sp_clock = 0; sp_halt = H_RUNNING; sp_retform = -1; sp_undef_read = sp_changed = sp_disorder = 0; sp_retval = SP_UNDEF;
 }
 static void sp_run(int32_t pc, int32_t n) {
@@ -192,6 +211,9 @@ static void sp_run(int32_t pc, int32_t n) {
         else if (op == JOP_LOAD_TRUE) { wd = (int32_t) a; wv = SP_TRUEV; }
         else if (op == JOP_LOAD_FALSE) { wd = (int32_t) a; wv = SP_FALSEV; }
         else if (op == JOP_LOAD_INTEGER) { wd = (int32_t) a; wv = (int8_t) SP_INTV(off16); }
+        else if (op == JOP_LOAD_CONSTANT) { wd = (int32_t) a; wv = SP_REFARR; }          /* the only table constant of this harness: a ref cell array */
+        else if (op == JOP_PUT_INDEX) { if (va != SP_REFARR || (w >> 24) != 0 || ((w >> 16) & 0xFF) >= SP_NREG) sp_halt = H_BAD; else { sp_refcell = sp_reg[((w >> 16) & 0xFF) % SP_NREG]; sp_refstores++; } }
+        else if (op == JOP_PUT) { if (((w >> 16) & 0xFF) >= SP_NREG || (w >> 24) >= SP_NREG) sp_halt = H_BAD; else { sp_put_ds = va; sp_put_key = sp_reg[((w >> 16) & 0xFF) % SP_NREG]; sp_put_val = sp_reg[(w >> 24) % SP_NREG]; sp_put_at = sp_clock++; sp_puts++; } }
         else if (op == JOP_RETURN) { sp_halt = H_RETURN; sp_retval = va; }
         else sp_halt = H_BAD;
         if (sp_halt == H_RUNNING) { if (wd >= 0) sp_reg[wd % SP_NREG] = wv; pc = next; }
@@ -252,16 +274,21 @@ static JanetFopts sp_opts(void) {
 #endif
     if (sp_ctx == SP_DROP) o.flags |= JANET_FOPTS_DROP;
     if (sp_ctx == SP_TAIL) o.flags |= JANET_FOPTS_TAIL;
+#ifdef SP_HINT
+    if (sp_ctx == SP_USED && SP_HINT) {
+#else
     if (sp_ctx == SP_USED && nd_int()) {
+#endif
         o.flags |= JANET_FOPTS_HINT; o.hint.flags = JANET_SLOT_NAMED | JANET_SLOT_MUTABLE | JANET_SLOTTYPE_ANY;
         o.hint.index = nd_i32(); __CPROVER_assume(o.hint.index >= 0 && o.hint.index < SP_NREG);
     }
     if (nd_int()) o.flags |= JANET_FOPTS_ACCEPT_SPLICE;
     return o;
 }
+static JanetScope *sp_scope0 = &sp_outer;      /* the scope the form is compiled in */
 static void sp_common_post(const char *unused) {
     int32_t n = janet_v_count(sp_c.buffer);
-    __CPROVER_assert(sp_c.scope == &sp_outer && sp_outer.child == (JanetScope *)0, "comp.sp: every scope the form opened is closed again; compilation continues in the enclosing scope");
+    __CPROVER_assert(sp_c.scope == sp_scope0 && sp_scope0->child == (JanetScope *)0, "comp.sp: every scope the form opened is closed again; compilation continues in the enclosing scope");
     __CPROVER_assert(n >= SP_PRE && sp_c.buffer[0] == sp_pre[0] && sp_c.buffer[1] == sp_pre[1], "comp.sp: code emitted before the form is untouched");
     __CPROVER_assert(janet_v_count(sp_c.mapbuffer) == n, "comp.sp: the source map stays in step with the code");
 }
@@ -335,22 +362,306 @@ void h_if(void) {
     __CPROVER_assert(sp_k[condid] == 0 || sp_k[chosen] == 0 || sp_first[condid] < sp_first[chosen], "comp.if: the condition is evaluated before the branch");
     if (sp_isconst[condid]) {
         __CPROVER_assert(chosen == other || sp_calls[other] == 0, "comp.if: with a constant condition the dead branch leaves no code");
+#if !defined(SP_CONDCONST) || SP_CONDCONST == 1
         REACH("if: constant condition");
+#endif
     }
     if (sp_ctx == SP_TAIL) {
         __CPROVER_assert(sp_halt == H_RETURN && sp_retform == chosen, "comp.if: in tail position the selected branch returns its value");
+#if !defined(SP_CTX) || SP_CTX == 2
         REACH("if: tail position");
+#endif
     } else {
         __CPROVER_assert(sp_halt == H_END, "comp.if: control continues with the first instruction after the if");
         if (sp_ctx == SP_USED) {
             __CPROVER_assert(!(ret.flags & JANET_SLOT_CONSTANT) && ret.envindex < 0 && ret.index >= 0 && ret.index < SP_NREG && sp_is_value_of(sp_reg[ret.index], chosen),
                              "comp.if: the result slot holds the value of the selected branch (nil when there is no else branch)");
-            if (opts.flags & JANET_FOPTS_HINT) { __CPROVER_assert(ret.index == opts.hint.index, "comp.if: a usable hint slot receives the result"); REACH("if: hint"); }
+            if (opts.flags & JANET_FOPTS_HINT) {
+                __CPROVER_assert(ret.index == opts.hint.index, "comp.if: a usable hint slot receives the result");
+#if (!defined(SP_CTX) || SP_CTX == 0) && (!defined(SP_HINT) || SP_HINT == 1)
+                REACH("if: hint");
+#endif
+            }
+#if !defined(SP_CTX) || SP_CTX == 0
             REACH("if: value used");
-        } else REACH("if: value dropped");
+#endif
+        } else {
+#if !defined(SP_CTX) || SP_CTX == 1
+            REACH("if: value dropped");
+#endif
+        }
     }
+#if !defined(SP_CTX) || SP_CTX == 0
     if (!take_true && elseid == 0 && sp_ctx == SP_USED) REACH("if: no else branch, false condition yields nil");
+#endif
+#if SP_IF_SHAPE == 1
     if (mode == 1 && !sp_isconst[condid]) REACH("if: (= nil x) shortcut");
     if (mode == 2 && !sp_isconst[condid]) REACH("if: (not= nil x) shortcut");
+    if (mode == 0) REACH("if: other comparison is an ordinary condition");
+#endif
     REACH("if returns");
+}
+
+/* the slot s holds (after execution) / is (at compile time) the value of form f */
+static int sp_slot_has_value_of(JanetSlot s, int f) {
+    if (s.flags & JANET_SLOT_CONSTANT) return sp_isconst[f] && s.constant.type == sp_constv[f].type && s.constant.as.u64 == sp_constv[f].as.u64;
+    return s.envindex < 0 && s.index >= 0 && s.index < SP_NREG && sp_is_value_of(sp_reg[s.index], f);
+}
+#define SP_CTXBITS (JANET_FOPTS_TAIL | JANET_FOPTS_DROP | JANET_FOPTS_HINT)
+
+/* ================================================================== do / upscope */
+#ifndef SP_UPSCOPE
+#define SP_UPSCOPE 0
+#endif
+void h_do(void) {
+    sp_setup(nd_int() ? JANET_SCOPE_FUNCTION : JANET_SCOPE_WHILE);
+    int32_t argn = nd_i32();
+    __CPROVER_assume(argn >= 0 && argn <= 3);
+    Janet argv[3];
+    for (int i = 0; i < 3; i++) argv[i] = sp_form(i + 1);
+    /* results of the sub-forms: temporaries of the do's scope or named locals */
+    for (int f = 1; f <= 3; f++) if (nd_int()) sp_slotflags[f] = JANET_SLOT_NAMED;
+    JanetFopts opts = sp_opts();
+#if SP_UPSCOPE
+    JanetSlot ret = janetc_upscope(opts, argn, argv);
+#else
+    JanetSlot ret = janetc_do(opts, argn, argv);
+#endif
+    __CPROVER_assert(sp_errors == 0, "comp.do: a do form compiles without error");
+    sp_common_post("do");
+    int g = nd_int();                       /* any sub-form */
+    __CPROVER_assume(g >= 1 && g <= 3);
+    int last = (int) argn;
+    if (g <= argn) {
+        __CPROVER_assert(sp_calls[g] == 1 && sp_seq[g] == g - 1, "comp.do: the sub-forms are compiled once each, in order");
+#if SP_UPSCOPE
+        __CPROVER_assert(sp_in_outer[g], "comp.upscope: the sub-forms are compiled in the enclosing scope (definitions stay visible)");
+#else
+        __CPROVER_assert(!sp_in_outer[g] && sp_parent_is_outer[g] && !(sp_scopeflags[g] & (JANET_SCOPE_FUNCTION | JANET_SCOPE_WHILE | JANET_SCOPE_TOP | JANET_SCOPE_UNUSED)),
+                         "comp.do: the sub-forms are compiled in a plain lexical scope of the do");
+#endif
+        if (g != last) __CPROVER_assert((sp_optflags[g] & (SP_CTXBITS | JANET_FOPTS_ACCEPT_SPLICE)) == JANET_FOPTS_DROP, "comp.do: every form but the last is compiled for effect only (value dropped, never tail)");
+        else {
+            __CPROVER_assert((sp_optflags[g] & SP_CTXBITS) == (opts.flags & SP_CTXBITS) && !(sp_optflags[g] & JANET_FOPTS_ACCEPT_SPLICE), "comp.do: the last form inherits the context of the do (tail position, hint, drop); no splice");
+            __CPROVER_assert(!(opts.flags & JANET_FOPTS_HINT) || sp_hintindex[g] == opts.hint.index, "comp.do: the last form delivers into the hint slot of the do");
+        }
+    } else __CPROVER_assert(sp_calls[g] == 0, "comp.do: nothing else is compiled");
+    /* released registers: the unnamed, non-constant results of the forms before the last */
+    int expect_free = 0;
+    for (int f = 1; f <= 2; f++) if (f < last && !sp_isconst[f] && !(sp_slotflags[f] & JANET_SLOT_NAMED)) expect_free++;
+    __CPROVER_assert(sp_free_calls == expect_free, "comp.do: the register of every dropped value is released (and nothing else)");
+    sp_exec();
+    __CPROVER_assert(g > argn || SP_RAN(g), "comp.do: every sub-form is evaluated");
+    int h = nd_int();
+    __CPROVER_assume(h >= 1 && h <= 3);
+    __CPROVER_assert(!(g < h && h <= argn) || sp_k[g] == 0 || sp_k[h] == 0 || sp_first[g] < sp_first[h], "comp.do: the sub-forms are evaluated in order");
+    if (argn == 0) {
+        __CPROVER_assert(sp_halt == H_END && (ret.flags & JANET_SLOT_CONSTANT) && ret.constant.type == JANET_NIL && janet_v_count(sp_c.buffer) == SP_PRE, "comp.do: an empty do is nil and has no code");
+        REACH("do: empty");
+    } else if (sp_ctx == SP_TAIL) {
+        __CPROVER_assert(sp_halt == H_RETURN && sp_retform == last, "comp.do: in tail position the last form returns its value");
+        REACH("do: tail position");
+    } else {
+        __CPROVER_assert(sp_halt == H_END, "comp.do: control continues after the do");
+        if (sp_ctx == SP_USED) {
+            __CPROVER_assert(sp_slot_has_value_of(ret, last), "comp.do: the value of the do is the value of its last form");
+#if !SP_UPSCOPE
+            if (!(ret.flags & (JANET_SLOT_CONSTANT | JANET_SLOT_NAMED)) && !(opts.flags & JANET_FOPTS_HINT)) {
+                __CPROVER_assert(sp_touch_calls == 1 && sp_touched == ret.index, "comp.do: the result register stays allocated in the enclosing scope after the do's scope is popped");
+                REACH("do: temporary result kept");
+            }
+#endif
+            REACH("do: value used");
+        }
+    }
+    if (argn == 3) REACH("do: three forms");
+    REACH("do returns");
+}
+
+/* ================================================================== break */
+static JanetScope sp_s1, sp_s2;
+static void sp_mkscope(JanetScope *s, JanetScope *parent, int flags) {
+    s->name = "s"; s->parent = parent; s->child = (JanetScope *)0; s->flags = flags; s->bytecode_start = 0;
+    s->syms = (SymPair *)0; s->consts = (Janet *)0; s->envs = (JanetEnvRef *)0; s->defs = (JanetFuncDef **)0; s->ra.max = 0; s->ua.max = 0;
+    if (parent) parent->child = s;
+}
+static int sp_scopekind(void) { int f = nd_int() & (JANET_SCOPE_FUNCTION | JANET_SCOPE_WHILE | JANET_SCOPE_CLOSURE | JANET_SCOPE_ENV | JANET_SCOPE_TOP); return f; }
+void h_break(void) {
+    sp_setup(0);
+    /* a chain of 1..3 scopes, innermost = current; every scope is a plain block, a loop, a function or a loop compiled as function */
+    int depth = nd_int();
+    __CPROVER_assume(depth >= 1 && depth <= 3);
+    int f0 = sp_scopekind(), f1 = sp_scopekind(), f2 = sp_scopekind();
+    sp_outer.flags = f0;
+    sp_scope0 = &sp_outer;
+    if (depth >= 2) { sp_mkscope(&sp_s1, &sp_outer, f1); sp_scope0 = &sp_s1; }
+    if (depth >= 3) { sp_mkscope(&sp_s2, &sp_s1, f2); sp_scope0 = &sp_s2; }
+    sp_c.scope = sp_scope0;
+    /* the nearest enclosing scope that is a loop or a function, innermost first */
+    int fl[3]; int nfl = depth;
+    if (depth == 1) { fl[0] = f0; } else if (depth == 2) { fl[0] = f1; fl[1] = f0; } else { fl[0] = f2; fl[1] = f1; fl[2] = f0; }
+    int target = -1;
+    for (int i = 2; i >= 0; i--) if (i < nfl && (fl[i] & (JANET_SCOPE_FUNCTION | JANET_SCOPE_WHILE))) target = fl[i];
+    int32_t argn = nd_i32();
+    __CPROVER_assume(argn >= 0 && argn <= 2);
+    Janet argv[2]; argv[0] = sp_form(1); argv[1] = sp_form(2);
+    JanetFopts opts = sp_opts();
+    JanetSlot ret = janetc_break(opts, argn, argv);
+    int32_t n = janet_v_count(sp_c.buffer);
+    sp_common_post("break");
+    __CPROVER_assert(sp_scope0->flags == fl[0], "comp.break: scope flags are not changed");
+    if (argn > 1 || target < 0) {
+        __CPROVER_assert(sp_errors == 1 && n == SP_PRE && sp_ncalls == 0, "comp.break: break outside of a loop or function, or with more than one argument, is a compile error and emits nothing");
+        if (target < 0) REACH("break: outside loop and function"); else REACH("break: too many arguments");
+        return;
+    }
+    __CPROVER_assert(sp_errors == 0, "comp.break: a well-placed break compiles without error");
+    __CPROVER_assert(sp_calls[1] == (int) argn && sp_calls[2] == 0, "comp.break: the value form is compiled once");
+    __CPROVER_assert((ret.flags & JANET_SLOT_CONSTANT) && ret.constant.type == JANET_NIL, "comp.break: the break form itself yields nil");
+    sp_exec();
+    __CPROVER_assert(argn == 0 || SP_RAN(1), "comp.break: the value form is evaluated before control leaves");
+    if (!(target & JANET_SCOPE_FUNCTION)) {
+        __CPROVER_assert(sp_halt == H_BREAK && sp_haltpc == n - 1, "comp.break: inside a loop the break ends in the loop-exit placeholder (patched by while)");
+        __CPROVER_assert(argn == 0 || (sp_optflags[1] & SP_CTXBITS) == JANET_FOPTS_DROP, "comp.break: the value of a loop break is dropped (the loop yields nil)");
+        REACH("break: loop");
+    } else if (!(target & JANET_SCOPE_WHILE)) {
+        __CPROVER_assert(sp_halt == H_RETURN && (argn ? sp_retform == 1 : sp_retval == SP_NILV), "comp.break: inside a function body break returns the value (nil without value)");
+        if (argn) REACH("break: function return with value"); else REACH("break: function return nil");
+    } else {
+        __CPROVER_assert(sp_halt == H_RETURN && sp_retform < 0 && sp_retval == SP_NILV, "comp.break: inside a loop compiled as function break leaves the loop function with nil (the loop yields nil)");
+        __CPROVER_assert(argn == 0 || (sp_optflags[1] & SP_CTXBITS) == JANET_FOPTS_DROP, "comp.break: the value of a loop break is dropped (the loop yields nil)");
+        REACH("break: loop compiled as function");
+    }
+    REACH("break returns");
+}
+
+/* ================================================================== def / var (leaf binding in a local scope) */
+#ifndef SP_VAR
+#define SP_VAR 0
+#endif
+static const uint8_t sp_symA[] = "a";
+void h_def(void) {
+    sp_setup(nd_int() ? JANET_SCOPE_FUNCTION : 0);
+    Janet argv[2];
+    argv[0].type = JANET_SYMBOL; argv[0].as.u64 = 0; argv[0].as.pointer = (void *) sp_symA;
+    argv[1] = sp_form(2);
+    /* the value: a constant, a temporary, an immutable named local (def) or a mutable named local (var) */
+    int vk = nd_int();
+    __CPROVER_assume(vk >= 0 && vk <= 2);
+    sp_slotflags[2] = vk == 0 ? 0 : vk == 1 ? JANET_SLOT_NAMED : (JANET_SLOT_NAMED | JANET_SLOT_MUTABLE);
+    JanetFopts opts = sp_opts();
+#if SP_VAR
+    JanetSlot ret = janetc_var(opts, 2, argv);
+#else
+    JanetSlot ret = janetc_def(opts, 2, argv);
+#endif
+    __CPROVER_assert(sp_errors == 0, "comp.def: a binding of a symbol compiles without error");
+    sp_common_post("def");
+    __CPROVER_assert(sp_calls[2] == 1 && sp_ncalls == 1, "comp.def: the value form is compiled once");
+    __CPROVER_assert((sp_optflags[2] & (JANET_FOPTS_TAIL | JANET_FOPTS_DROP)) == 0, "comp.def: the value is needed for the binding: not compiled as tail call, not dropped");
+    __CPROVER_assert(sp_in_outer[2], "comp.def: no scope is opened for the value");
+    __CPROVER_assert(janet_v_count(sp_outer.syms) == 1, "comp.def: exactly one name is added to the current scope");
+    SymPair p = sp_outer.syms[0];
+    __CPROVER_assert(p.sym == sp_symA && (p.slot.flags & JANET_SLOT_NAMED), "comp.def: the name is bound in the current scope");
+#if SP_VAR
+    __CPROVER_assert(p.slot.flags & JANET_SLOT_MUTABLE, "comp.var: the binding is mutable");
+#else
+    __CPROVER_assert(!(p.slot.flags & JANET_SLOT_MUTABLE), "comp.def: the binding is immutable");
+#endif
+    sp_exec();
+    __CPROVER_assert(sp_halt == H_END && SP_RAN(2), "comp.def: the value form is evaluated, control continues after the binding");
+    __CPROVER_assert(sp_slot_has_value_of(p.slot, 2), "comp.def: the name is bound to the value of the form");
+    if (!(p.slot.flags & JANET_SLOT_CONSTANT)) {
+        /* sharing a register with the value is only sound if nobody can assign to either name */
+        int shares_value_reg = !sp_isconst[2] && p.slot.index == sp_slot[2];
+        int shares_hint_reg = (opts.flags & JANET_FOPTS_HINT) && p.slot.index == opts.hint.index;
+#if SP_VAR
+        __CPROVER_assert(!shares_value_reg || !(sp_slotflags[2] & JANET_SLOT_NAMED), "comp.var: a new variable never shares its register with another named binding");
+#else
+        __CPROVER_assert(!shares_value_reg || !(sp_slotflags[2] & JANET_SLOT_MUTABLE), "comp.def: a definition never aliases a variable (a later set must not change it)");
+#endif
+        __CPROVER_assert(!shares_hint_reg, "comp.def: the new binding does not live in the register of the variable that receives the form's value");
+        if (shares_value_reg) REACH("def: aliases the value's register");
+    }
+    if (sp_ctx == SP_USED) __CPROVER_assert(sp_slot_has_value_of(ret, 2), "comp.def: the binding form yields the bound value");
+    if (vk == 2) REACH("def: value is a variable");
+    if (sp_isconst[2]) REACH("def: constant value");
+    REACH("def returns");
+}
+
+/* ================================================================== set */
+#ifndef SP_SET_SHAPE
+#define SP_SET_SHAPE 0        /* 0: (set name v); 1: (set (ds key) v) */
+#endif
+static JanetArray sp_refarray;
+static struct { JanetTupleHead head; Janet data[2]; } sp_lv;
+void h_set(void) {
+    sp_setup(nd_int() ? JANET_SCOPE_FUNCTION : 0);
+    Janet argv[2];
+    argv[1] = sp_form(2);
+    JanetFopts opts;
+#if SP_SET_SHAPE == 0
+    /* the name resolves in the current scope to: a local variable, a local definition, or a top-level variable (ref cell) */
+    int nk = nd_int();
+    __CPROVER_assume(nk >= 0 && nk <= 2);
+    sp_symmem.cap = 4; sp_symmem.cnt = 1; sp_outer.syms = sp_symmem.data;
+    SymPair *sp = &sp_symmem.data[0];
+    sp->sym = sp_symA; sp->sym2 = sp_symA; sp->keep = 0; sp->birth_pc = 0; sp->death_pc = UINT32_MAX;
+    sp->slot.constant = sp_nil(); sp->slot.envindex = -1; sp->slot.index = 7;
+    sp->slot.flags = JANET_SLOT_NAMED | (nk == 0 ? JANET_SLOT_MUTABLE : 0);
+    if (nk == 2) {
+        sp->slot.constant.type = JANET_ARRAY; sp->slot.constant.as.pointer = &sp_refarray; sp->slot.index = -1;
+        sp->slot.flags = JANET_SLOT_REF | JANET_SLOT_NAMED | JANET_SLOT_MUTABLE | JANET_SLOTTYPE_ANY;
+        sp_const_ok = 1;
+    }
+    argv[0].type = JANET_SYMBOL; argv[0].as.u64 = 0; argv[0].as.pointer = (void *) sp_symA;
+    opts = sp_opts();
+    JanetSlot ret = janetc_varset(opts, 2, argv);
+    sp_common_post("set");
+    if (nk == 1) {
+        __CPROVER_assert(sp_errors == 1 && sp_ncalls == 0 && janet_v_count(sp_c.buffer) == SP_PRE, "comp.set: assigning to a definition is a compile error and emits nothing");
+        REACH("set: on a def");
+        return;
+    }
+    __CPROVER_assert(sp_errors == 0, "comp.set: assigning to a variable compiles without error");
+    __CPROVER_assert(sp_calls[2] == 1 && sp_ncalls == 1 && !(sp_optflags[2] & JANET_FOPTS_TAIL), "comp.set: the value form is compiled once, not as tail call (the store follows it)");
+    sp_exec();
+    __CPROVER_assert(sp_halt == H_END && SP_RAN(2), "comp.set: the value form is evaluated, control continues after the assignment");
+    if (nk == 0) {
+        __CPROVER_assert(sp_is_value_of(sp_reg[7], 2), "comp.set: the variable's register holds the new value");
+        __CPROVER_assert(sp_refstores == 0 && sp_puts == 0, "comp.set: nothing else is stored");
+        if (sp_ctx == SP_USED) __CPROVER_assert(sp_slot_has_value_of(ret, 2), "comp.set: the form yields the assigned value");
+        REACH("set: local variable");
+    } else {
+        __CPROVER_assert(sp_refstores == 1 && sp_is_value_of(sp_refcell, 2), "comp.set: the new value is stored into the ref cell of the top-level variable");
+        __CPROVER_assert(sp_const_calls >= 1 && sp_const_seen.type == JANET_ARRAY && sp_const_seen.as.pointer == (void *) &sp_refarray, "comp.set: the ref cell is the one bound to the name");
+        REACH("set: top-level variable");
+    }
+#else
+    sp_lv.head.length = nd_int() ? 2 : 3; sp_lv.head.gc.flags = 0;
+    Janet *td = (Janet *) sp_lv.data;
+    td[0] = sp_form(3); td[1] = sp_form(4);
+    argv[0].type = JANET_TUPLE; argv[0].as.u64 = 0; argv[0].as.pointer = (void *) sp_lv.data;
+    opts = sp_opts();
+    JanetSlot ret = janetc_varset(opts, 2, argv);
+    sp_common_post("set");
+    if (sp_lv.head.length != 2) {
+        __CPROVER_assert(sp_errors == 1 && sp_ncalls == 0 && janet_v_count(sp_c.buffer) == SP_PRE, "comp.set: an l-value tuple must have exactly two elements");
+        REACH("set: bad l-value");
+        return;
+    }
+    __CPROVER_assert(sp_errors == 0, "comp.set: a field assignment compiles without error");
+    __CPROVER_assert(sp_calls[3] == 1 && sp_calls[4] == 1 && sp_calls[2] == 1 && sp_seq[3] == 0 && sp_seq[4] == 1 && sp_seq[2] == 2, "comp.set: data structure, key and value are compiled once each, in this order");
+    __CPROVER_assert(((sp_optflags[3] | sp_optflags[4]) & (SP_CTXBITS | JANET_FOPTS_ACCEPT_SPLICE)) == 0 && (sp_optflags[2] & (JANET_FOPTS_TAIL | JANET_FOPTS_DROP)) == 0,
+                     "comp.set: all three values are needed by the store: none dropped, none compiled as tail call");
+    sp_exec();
+    __CPROVER_assert(sp_halt == H_END && SP_RAN(3) && SP_RAN(4) && SP_RAN(2), "comp.set: data structure, key and value are evaluated; control continues");
+    __CPROVER_assert((sp_k[3] == 0 || sp_k[4] == 0 || sp_first[3] < sp_first[4]) && (sp_k[4] == 0 || sp_k[2] == 0 || sp_first[4] < sp_first[2]) && (sp_k[3] == 0 || sp_k[2] == 0 || sp_first[3] < sp_first[2]),
+                     "comp.set: data structure, then key, then value");
+    __CPROVER_assert(sp_puts == 1 && sp_is_value_of(sp_put_ds, 3) && sp_is_value_of(sp_put_key, 4) && sp_is_value_of(sp_put_val, 2), "comp.set: exactly one put of the value under the key into the data structure");
+    __CPROVER_assert((sp_k[2] == 0 || sp_first[2] < sp_put_at) && (sp_k[3] == 0 || sp_first[3] < sp_put_at) && (sp_k[4] == 0 || sp_first[4] < sp_put_at), "comp.set: the put happens after all three evaluations");
+    if (sp_ctx == SP_USED) __CPROVER_assert(sp_slot_has_value_of(ret, 2), "comp.set: the form yields the assigned value");
+    REACH("set: field");
+#endif
+    REACH("set returns");
 }
